@@ -191,7 +191,8 @@ class Exec:
             return s.expr(n['inner'][0])
         if k == 'CXXConstructExpr':
             if 'inner' not in n: return None
-            if len(n['inner']) == 1: return rval(s.expr(n['inner'][0]))
+            real_args = [a for a in n['inner'] if a['kind'] != 'CXXDefaultArgExpr']
+            if len(real_args) == 1: return rval(s.expr(real_args[0]))
             raise Unsupported('ctor with %d args' % len(n['inner']))
         if k == 'CXXThrowExpr': raise Thrown()
         if k == 'FloatingLiteral': return D(sp.Rational(Fraction(n['value'])) if 'e' not in n['value'].lower() else sp.Rational(Fraction(float(n['value']))))
